@@ -229,6 +229,12 @@ class ExecResolve(ExecCall):
                 if self.contract is not None and not self.discovery and m not in self.contract.modifies and "*" not in self.contract.modifies:
                     self.oblige("frame", st, z3.BoolVal(False), f"call to {c.name} modifies {m}, outside the caller's modifies",
                                 name=f"frame:{m}")
+        # the callee may allocate: the allocation clock moves to an unknown later point
+        if c.fresh_result or not c.pure:
+            old_clock = st.clock
+            st.clock0 = z3.Int(w.fresh_name("clock"))
+            st.clock_off = 0
+            st.assume(st.clock0 >= old_clock + (1 if c.fresh_result else 0))
         # result
         if c.returns is None:
             res = NONE
@@ -330,9 +336,9 @@ class ExecResolve(ExecCall):
                 out.append(v.t != w.null)
             if fresh:
                 out.append(w.born(v.t) >= snap.clock)
-                out.append(w.born(v.t) < st.clock + 1)
+                out.append(w.born(v.t) < st.clock)
             else:
-                out.append(z3.Or(v.t == w.null, w.born(v.t) < st.clock + (1 if snap is not None else 0)))
+                out.append(z3.Or(v.t == w.null, w.born(v.t) < st.clock))
         if isinstance(bk, tuple) and bk[0] in ("seq", "set"):
             out.append(SLen(v.t) >= 0)
             ek = w.base_kind(bk[1])
@@ -341,7 +347,7 @@ class ExecResolve(ExecCall):
                 rng = z3.And(0 <= j, j < SLen(v.t))
                 el = SAt(v.t, j)
                 facts = [w.isinstance_term(el, w.cls(ek[1]))] if ek[1] else [el != w.null]
-                facts.append(w.born(el) < st.clock + (1 if snap is not None else 0))
+                facts.append(w.born(el) < st.clock)
                 out.append(z3.ForAll([j], z3.Implies(rng, z3.And(facts))))
         return out
 
@@ -372,8 +378,17 @@ class ExecResolve(ExecCall):
                     if f["name"] in given:
                         self.init_field(s, obj, f["name"], given[f["name"]])
                         nxt.append(s)
+                    elif not f["init"] and f["default_kind"] == "none":
+                        nxt.append(s)      # set later (e.g. in __post_init__)
                     else:
-                        for s2, v in self.field_default(s, qual, f):
+                        try:
+                            outs_d = list(self.field_default(s, qual, f))
+                        except EngineError as e:
+                            if f["default_kind"] == "none":
+                                raise
+                            self.notes.append(f"default of {w.short_name(qual)}.{f['name']} not modelled ({str(e)[:60]}): field left unconstrained")
+                            outs_d = [(s, None)]
+                        for s2, v in outs_d:
                             if v is not None:
                                 self.init_field(s2, obj, f["name"], v)
                             nxt.append(s2)
